@@ -541,3 +541,178 @@ pub fn c18(tier: &str, seed: u64, ops: Option<&[String]>) -> Report {
     rep.sample("tn 612b (\"a+\") -> invalid".into());
     rep
 }
+
+// ---------------------------------------------------------------- packet-level properties
+
+use crate::fam::{Fam, V3, V5};
+use crate::poracle as po;
+
+fn both<FN3, FN5>(rep: &mut Report, f3: FN3, f5: FN5)
+where
+    FN3: FnOnce(&mut Report),
+    FN5: FnOnce(&mut Report),
+{
+    f3(rep);
+    f5(rep);
+}
+
+fn distinct_of<T: std::fmt::Debug>(xs: &[T]) -> u64 {
+    let mut s = std::collections::HashSet::new();
+    for x in xs {
+        s.insert(format!("{:?}", x));
+    }
+    s.len() as u64
+}
+
+pub fn packet_oracle(prop: &str, tier: &str, seed: u64, ops: Option<&[String]>) -> Report {
+    let rule = match prop {
+        "C01" => "type-directed generator of valid packets (all 14 v3 / 15 v5 types; every optional field and property present/absent incl. all-present, none, exactly-one and all-but-one property subsets; every code; boundary lengths 0,1,127,128,16383..16385,65534,65535) -> encode, then blocking/async/poll decode of the encoding alone and followed by trailing bytes; poll total and raw body compared",
+        "C02" => "same generator: encode vs encode_len, fixed-header remaining length vs bytes following, Encodable::encode of every body vs its encode_len and vs the packet body; remaining lengths exactly at 127/128, 16383/16384, 2097151/2097152, 268435455/268435456 (v3 PUBLISH with shared payload); oversize v5 property sections; run in release and in debug (debug assertions + overflow checks) builds",
+        "C03" => "valid encodings with structure-aware corruptions (bit flips, length edits, truncation, extension, splicing, maximal remaining length, non-minimal lengths) and random strings through blocking/async/poll decoders of both families under catch_unwind in release and debug builds; the exhaustive <=2-byte (thorough: sampled 3-byte) strings are in the correspondence stream",
+        "C05" => "for every byte string of the mutated-encoding corpus: poll with two random schedules (chunks, Pending, Pending+drop/re-create) and random terminal event vs one uninterrupted read: same result, same consumption, Pending count = transport Pendings, every requested buffer within the frame, consumed = reported total",
+        "C06" => "blocking vs async(EOF mapped) vs poll on valid, corrupted and random byte strings of both families; per error variant tallies",
+        "C07" => "every cut position (all positions up to 400 bytes, 200 sampled beyond) of every generated valid packet on blocking/async/poll (random schedule) decoders; encoding followed by random or adversarial (another packet) suffix",
+        "C08" => "sequences of 1..20 generated valid packets (mixed types incl. zero-body and multi-byte-length headers) decoded back-to-back by blocking (advance by encode_len), async (reader position) and poll (reported total, random chunking) front-ends",
+        "C09" => "encode twice; encode_async into sinks accepting everything / 1 byte / random 1..7 bytes with Pendings; Encodable::encode of the body into a chunking io::Write sink vs the packet body",
+        "C11" => "every byte string of the mutated corpus that any front-end accepts: re-encode, decode again on blocking and poll, compare length with bytes consumed",
+        "C12" => "field-by-field walker over every packet any front-end returns for the mutated corpus: UTF-8 of every text, TopicName/TopicFilter validity, accessors vs validator index, pid != 0, VarByteInt < 2^28, flagged payloads",
+        "C14" => "read side: a transport error of a random kind (6 kinds) or EOF at every cut of every generated packet, async and poll (random schedules); write side: error or zero-length write at a random position of encode_async and of the streaming body encoder",
+        _ => "",
+    };
+    let mut rep = Report::new(prop, rule);
+    let thorough = tier == "thorough";
+    match prop {
+        "C01" | "C02" | "C09" | "C07" | "C14" | "C08" => {
+            let (nq, nt) = match prop {
+                "C07" | "C14" => (600, 6000),
+                "C08" => (3000, 30000),
+                _ => (6000, 60000),
+            };
+            let i3 = po::inputs::<V3>(tier, seed, ops, nq, nt, false);
+            let i5 = po::inputs::<V5>(tier, seed.wrapping_add(1), ops, nq, nt, false);
+            rep.distinct = distinct_of(&i3.packets) + distinct_of(&i5.packets);
+            let mut rng = Rng::new(seed ^ 0x5151);
+            match prop {
+                "C01" => {
+                    for p in &i3.packets {
+                        po::c01::<V3>(&mut rep, p);
+                    }
+                    for p in &i5.packets {
+                        po::c01::<V5>(&mut rep, p);
+                    }
+                }
+                "C02" => {
+                    for p in &i3.packets {
+                        po::c02::<V3>(&mut rep, p);
+                    }
+                    for p in &i5.packets {
+                        po::c02::<V5>(&mut rep, p);
+                    }
+                    if ops.is_none() {
+                        po::c02_oversize(&mut rep);
+                        if thorough {
+                            po::c02_boundary(&mut rep);
+                        }
+                    }
+                }
+                "C09" => {
+                    for p in &i3.packets {
+                        po::c09::<V3>(&mut rep, p, &mut rng, false);
+                    }
+                    for p in &i5.packets {
+                        po::c09::<V5>(&mut rep, p, &mut rng, false);
+                    }
+                }
+                "C07" => {
+                    for p in &i3.packets {
+                        po::c07::<V3>(&mut rep, p, &mut rng, false);
+                    }
+                    for p in &i5.packets {
+                        po::c07::<V5>(&mut rep, p, &mut rng, false);
+                    }
+                }
+                "C14" => {
+                    for p in &i3.packets {
+                        po::c07::<V3>(&mut rep, p, &mut rng, true);
+                        po::c09::<V3>(&mut rep, p, &mut rng, true);
+                    }
+                    for p in &i5.packets {
+                        po::c07::<V5>(&mut rep, p, &mut rng, true);
+                        po::c09::<V5>(&mut rep, p, &mut rng, true);
+                    }
+                    c14_conversions(&mut rep);
+                }
+                _ => {
+                    let mut k = 0;
+                    while k < i3.packets.len() {
+                        let n = 1 + rng.below(20) as usize;
+                        let end = (k + n).min(i3.packets.len());
+                        po::c08::<V3>(&mut rep, &i3.packets[k..end], &mut rng);
+                        k = end;
+                    }
+                    let mut k = 0;
+                    while k < i5.packets.len() {
+                        let n = 1 + rng.below(20) as usize;
+                        let end = (k + n).min(i5.packets.len());
+                        po::c08::<V5>(&mut rep, &i5.packets[k..end], &mut rng);
+                        k = end;
+                    }
+                }
+            }
+        }
+        _ => {
+            let (nq, nt) = (2500, 25000);
+            let i3 = po::inputs::<V3>(tier, seed, ops, nq, nt, true);
+            let i5 = po::inputs::<V5>(tier, seed.wrapping_add(1), ops, nq, nt, true);
+            let mut extra: Vec<Vec<u8>> = Vec::new();
+            let mut rng = Rng::new(seed ^ 0x7777);
+            if ops.is_none() {
+                for _ in 0..(if thorough { 20000 } else { 2000 }) {
+                    let n = rng.below(24) as usize;
+                    extra.push((0..n).map(|_| rng.next() as u8).collect());
+                }
+            }
+            rep.distinct = distinct_of(&i3.bytes) + distinct_of(&i5.bytes) + 2 * distinct_of(&extra);
+            let fl = po::ByteFlags { c03: prop == "C03", c05: prop == "C05", c06: prop == "C06", c11: prop == "C11" };
+            let c12 = prop == "C12";
+            for b in i3.bytes.iter().chain(extra.iter()) {
+                po::bytes_pass::<V3>(&mut rep, b, &mut rng, &fl, &|p| crate::walk::walk_v3(p), c12);
+            }
+            for b in i5.bytes.iter().chain(extra.iter()) {
+                po::bytes_pass::<V5>(&mut rep, b, &mut rng, &fl, &|p| crate::walk::walk_v5(p), c12);
+            }
+        }
+    }
+    let _ = both::<fn(&mut Report), fn(&mut Report)>;
+    rep.sample(format!("enc v3 {}", crate::v3text::show(&crate::pgen::gen_v3(&mut Rng::new(seed), 2, crate::pgen::Sizes { big: false }))));
+    rep.sample(format!("enc v5 {}", crate::v5text::show(&crate::pgen::gen_v5(&mut Rng::new(seed), 0, crate::pgen::Sizes { big: false }, 1, 0))));
+    rep
+}
+
+fn c14_conversions(rep: &mut Report) {
+    use mqtt_proto::{v5::ErrorV5, Error, Protocol};
+    use std::io;
+    let kinds = [io::ErrorKind::UnexpectedEof, io::ErrorKind::ConnectionReset, io::ErrorKind::TimedOut, io::ErrorKind::BrokenPipe, io::ErrorKind::WouldBlock, io::ErrorKind::Other, io::ErrorKind::WriteZero, io::ErrorKind::InvalidData, io::ErrorKind::ConnectionAborted, io::ErrorKind::NotConnected];
+    for k in kinds {
+        rep.cases += 1;
+        let e: Error = io::Error::from(k).into();
+        let back: io::Error = e.clone().into();
+        let e5: ErrorV5 = io::Error::from(k).into();
+        let ok = matches!(&e, Error::IoError(k2, _) if *k2 == k) && back.kind() == k && e5 == ErrorV5::Common(e.clone()) && (e.is_eof() == (k == io::ErrorKind::UnexpectedEof)) && e5.is_eof() == e.is_eof();
+        if !ok {
+            rep.fail("io-conversion", format!("io::ErrorKind::{:?}", k), format!("Error::from gives {:?}, back to io gives {:?}", e, back.kind()));
+        }
+    }
+    let protos: Vec<Error> = vec![
+        Error::InvalidRemainingLength, Error::EmptySubscription, Error::ZeroPid, Error::InvalidQos(3), Error::InvalidConnectFlags(1), Error::InvalidConnackFlags(2),
+        Error::InvalidConnectReturnCode(6), Error::InvalidProtocol("x".into(), 1), Error::UnexpectedProtocol(Protocol::V500), Error::InvalidHeader, Error::InvalidVarByteInt,
+        Error::InvalidTopicName("+".into()), Error::InvalidTopicFilter("".into()), Error::InvalidString,
+    ];
+    for e in protos {
+        rep.cases += 1;
+        let io: io::Error = e.clone().into();
+        if io.kind() != io::ErrorKind::InvalidData || e.is_eof() {
+            rep.fail("io-conversion", format!("{:?}", e), format!("maps to io kind {:?}", io.kind()));
+        }
+    }
+}
